@@ -118,8 +118,17 @@ func VerifC17Map() {
 				if j == 1 {
 					// iterators taken inside the transaction list its contents at that moment
 					// and are not affected by its later writes
+					// (one iterator kind per path: each of them freezes the tree, which would
+					// mask a missing freeze in another)
 					keptSnap = nm.Snapshot()
-					keptAll, keptPre, keptLB = tx.All(), tx.Prefix("a"), tx.LowerBound("a")
+					switch vnd.IntRange("keptkind", 0, 2) {
+					case 0:
+						keptAll = tx.All()
+					case 1:
+						keptPre = tx.Prefix("a")
+					case 2:
+						keptLB = tx.LowerBound("a")
+					}
 				}
 				k := vnd.String("tk", L)
 				if vnd.IntRange("top", 0, 1) == 0 {
@@ -132,12 +141,18 @@ func VerifC17Map() {
 				}
 			}
 			{
-				keys, vals := collectMap(keptAll)
-				keptSnap.CheckOrdered(keys, vals, vnd.SelAll, "C17.txn.kept-all")
-				keys, vals = collectMap(keptPre)
-				keptSnap.CheckOrdered(keys, vals, vnd.SelPrefix([]byte("a")), "C17.txn.kept-prefix")
-				keys, vals = collectMap(keptLB)
-				keptSnap.CheckOrdered(keys, vals, vnd.SelLowerBound([]byte("a")), "C17.txn.kept-lowerbound")
+				if keptAll != nil {
+					keys, vals := collectMap(keptAll)
+					keptSnap.CheckOrdered(keys, vals, vnd.SelAll, "C17.txn.kept-all")
+				}
+				if keptPre != nil {
+					keys, vals := collectMap(keptPre)
+					keptSnap.CheckOrdered(keys, vals, vnd.SelPrefix([]byte("a")), "C17.txn.kept-prefix")
+				}
+				if keptLB != nil {
+					keys, vals := collectMap(keptLB)
+					keptSnap.CheckOrdered(keys, vals, vnd.SelLowerBound([]byte("a")), "C17.txn.kept-lowerbound")
+				}
 			}
 			tv, tok := tx.Get("a")
 			mv, mok := nm.Get([]byte("a"))
